@@ -45,17 +45,111 @@ With(f, n) == [toks |-> f.toks, T |-> f.T \cup n.T, TQ |-> f.TQ \cup n.TQ, C |->
 
 LeafKinds == {"from", "alias", "as-alias", "schema", "two-tables", "join-two", "join-two-schema", "join-inner", "join-left", "join-right", "join-full", "join-cross",
               "where-fn", "group-having-order", "insert-values", "update", "delete", "merge", "case", "between-in-cast", "window",
-              "string-keyword", "count-star", "shared"}
+              "string-keyword", "count-star", "shared", "slot-q", "slot-d"}
 NestKinds == {"in-subquery", "exists", "scalar-subquery", "derived", "join-derived", "cte", "insert-select", "update-subquery",
               "delete-subquery", "union", "not-in-subquery", "values-subquery", "returning-subquery", "upsert-subquery",
               "update-set-subquery", "having-subquery", "join-on-subquery", "case-subquery", "function-arg-subquery",
               "order-by-subquery", "between-subquery"}
 
+
+\* ---- expression slots: every expression position x every expression shape ----------------------------------------
+\* A slot frame has one expression position; the expression standing there is one of Shapes.  Shapes use their own
+\* column names (c<L>e/f/g) and function names (FA<L>, FB<L>, FC<L>), so a name missing from a result names the
+\* position and the shape.  bool = the expression is a condition (a scalar one is compared with 0 where a
+\* condition is required).
+Fa(L) == "FA" \o S(L)
+Fb(L) == "FB" \o S(L)
+Fc(L) == "FC" \o S(L)
+Shapes == {"col", "qual-col", "fn", "fn-two-args", "fn-nested", "fn-nested-deep", "fn-repeat-then-nested", "fn-nested-then-repeat",
+           "fn-same-nested", "fn-filter", "fn-over", "fn-distinct", "fn-order-by", "fn-within-group", "case", "case-operand", "cast",
+           "in-list", "between", "is-null", "like", "concat", "neg", "not", "paren", "arith"}
+Shape(s, L) ==
+  LET ce == Col(L, "e")  cf == Col(L, "f")  cg == Col(L, "g")  fa == Fa(L)  fb == Fb(L)  fc == Fc(L)  ta == Tab(L, "a")
+      E(toks, cols, fns, b) == [toks |-> toks, C |-> cols, CQ |-> {Plain(c) : c \in cols}, F |-> fns, bool |-> b] IN
+  CASE s = "col" -> E(<<ce>>, {ce}, {}, FALSE)
+    [] s = "qual-col" -> [toks |-> <<ta, ".", ce>>, C |-> {ce}, CQ |-> {<<ta, ce>>}, F |-> {}, bool |-> FALSE]
+    [] s = "fn" -> E(<<fa, "(", ce, ")">>, {ce}, {fa}, FALSE)
+    [] s = "fn-two-args" -> E(<<fa, "(", ce, ",", cf, ")">>, {ce, cf}, {fa}, FALSE)
+    [] s = "fn-nested" -> E(<<fa, "(", fb, "(", ce, ")", ")">>, {ce}, {fa, fb}, FALSE)
+    [] s = "fn-nested-deep" -> E(<<fa, "(", fb, "(", fc, "(", ce, ")", ")", ")">>, {ce}, {fa, fb, fc}, FALSE)
+    \* the same function name twice, the other function only inside one of the two calls
+    [] s = "fn-repeat-then-nested" -> E(<<fa, "(", ce, ")", "+", fa, "(", fb, "(", cf, ")", ")">>, {ce, cf}, {fa, fb}, FALSE)
+    [] s = "fn-nested-then-repeat" -> E(<<fa, "(", fb, "(", ce, ")", ")", "+", fa, "(", cf, ")">>, {ce, cf}, {fa, fb}, FALSE)
+    [] s = "fn-same-nested" -> E(<<fa, "(", fa, "(", fb, "(", ce, ")", ")", ")">>, {ce}, {fa, fb}, FALSE)
+    [] s = "fn-filter" -> E(<<"COUNT", "(", ce, ")", "FILTER", "(", "WHERE", fb, "(", cf, ")", "=", "1", ")">>, {ce, cf}, {"COUNT", fb}, FALSE)
+    [] s = "fn-over" -> E(<<fa, "(", ce, ")", "OVER", "(", "PARTITION", "BY", fb, "(", cf, ")", "ORDER", "BY", fc, "(", cg, ")", ")">>,
+                          {ce, cf, cg}, {fa, fb, fc}, FALSE)
+    [] s = "fn-distinct" -> E(<<"COUNT", "(", "DISTINCT", fa, "(", ce, ")", ")">>, {ce}, {"COUNT", fa}, FALSE)
+    [] s = "fn-order-by" -> E(<<fa, "(", ce, "ORDER", "BY", fb, "(", cf, ")", ")">>, {ce, cf}, {fa, fb}, FALSE)
+    [] s = "fn-within-group" -> E(<<fa, "(", ce, ")", "WITHIN", "GROUP", "(", "ORDER", "BY", fb, "(", cf, ")", ")">>, {ce, cf}, {fa, fb}, FALSE)
+    [] s = "case" -> E(<<"CASE", "WHEN", fa, "(", ce, ")", "=", "1", "THEN", fb, "(", cf, ")", "ELSE", fc, "(", cg, ")", "END">>,
+                       {ce, cf, cg}, {fa, fb, fc}, FALSE)
+    [] s = "case-operand" -> E(<<"CASE", fa, "(", ce, ")", "WHEN", "1", "THEN", cf, "END">>, {ce, cf}, {fa}, FALSE)
+    [] s = "cast" -> E(<<"CAST", "(", fa, "(", ce, ")", "AS", "INT", ")">>, {ce}, {fa}, FALSE)
+    [] s = "in-list" -> E(<<ce, "IN", "(", fa, "(", cf, ")", ",", fb, "(", cg, ")", ")">>, {ce, cf, cg}, {fa, fb}, TRUE)
+    [] s = "between" -> E(<<ce, "BETWEEN", fa, "(", cf, ")", "AND", fb, "(", cg, ")">>, {ce, cf, cg}, {fa, fb}, TRUE)
+    [] s = "is-null" -> E(<<fa, "(", ce, ")", "IS", "NULL">>, {ce}, {fa}, TRUE)
+    [] s = "like" -> E(<<ce, "LIKE", fa, "(", cf, ")">>, {ce, cf}, {fa}, TRUE)
+    [] s = "concat" -> E(<<fa, "(", ce, ")", "||", fb, "(", cf, ")">>, {ce, cf}, {fa, fb}, FALSE)
+    [] s = "neg" -> E(<<"-", fa, "(", ce, ")">>, {ce}, {fa}, FALSE)
+    [] s = "not" -> E(<<"NOT", fa, "(", ce, ")">>, {ce}, {fa}, TRUE)
+    [] s = "paren" -> E(<<"(", fa, "(", ce, ")", "+", cf, ")">>, {ce, cf}, {fa}, FALSE)
+    [] s = "arith" -> E(<<ce, "*", fa, "(", cf, ")">>, {ce, cf}, {fa}, FALSE)
+
+QueryPos == {"select-item", "select-first", "select-last", "select-aliased", "distinct-on", "aggregate-arg", "where", "where-and-right",
+             "join-on", "join-on-second", "group-by", "group-by-second", "having", "order-by", "order-by-second"}
+DmlPos == {"insert-value", "insert-second-row", "insert-returning", "upsert-set", "upsert-where", "update-set", "update-second-set",
+           "update-where", "update-returning", "delete-where", "delete-returning", "merge-on", "merge-when-condition",
+           "merge-update-set", "merge-insert-value"}
+SlotFrame(pos, L, e) ==
+  LET ta == Tab(L, "a")  tb == Tab(L, "b")  tc == Tab(L, "c")  ca == Col(L, "a")  cb == Col(L, "b")  cc == Col(L, "c")  xa == Ali(L, "a")
+      x == e.toks
+      b == IF e.bool THEN e.toks ELSE e.toks \o <<">", "0">>
+      \* the frame's own names, then the expression's
+      Fr(toks, tabs, cols, fns, als) == [toks |-> toks, T |-> tabs, TQ |-> {Plain(t) : t \in tabs}, C |-> cols \cup e.C,
+                                         CQ |-> {Plain(c) : c \in cols} \cup e.CQ, F |-> fns \cup e.F, A |-> als]
+      mergeHead == <<"MERGE", "INTO", ta, "USING", tb, "ON">>
+      mergeOn == <<ca, "=", "1">> IN
+  CASE pos = "select-item" -> Fr(<<"SELECT">> \o x \o <<"FROM", ta>>, {ta}, {}, {}, {})
+    [] pos = "select-first" -> Fr(<<"SELECT">> \o x \o <<",", ca, "FROM", ta>>, {ta}, {ca}, {}, {})
+    [] pos = "select-last" -> Fr(<<"SELECT", ca, ",">> \o x \o <<"FROM", ta>>, {ta}, {ca}, {}, {})
+    [] pos = "select-aliased" -> Fr(<<"SELECT">> \o x \o <<"AS", xa, "FROM", ta>>, {ta}, {}, {}, {xa})
+    [] pos = "distinct-on" -> Fr(<<"SELECT", "DISTINCT", "ON", "(">> \o x \o <<")", ca, "FROM", ta>>, {ta}, {ca}, {}, {})
+    [] pos = "aggregate-arg" -> Fr(<<"SELECT", "SUM", "(">> \o x \o <<")", "FROM", ta>>, {ta}, {}, {"SUM"}, {})
+    [] pos = "where" -> Fr(<<"SELECT", ca, "FROM", ta, "WHERE">> \o b, {ta}, {ca}, {}, {})
+    [] pos = "where-and-right" -> Fr(<<"SELECT", ca, "FROM", ta, "WHERE", cb, "=", "1", "AND">> \o b, {ta}, {ca, cb}, {}, {})
+    [] pos = "join-on" -> Fr(<<"SELECT", ca, "FROM", ta, "JOIN", tb, "ON">> \o b, {ta, tb}, {ca}, {}, {})
+    [] pos = "join-on-second" -> Fr(<<"SELECT", ca, "FROM", ta, "JOIN", tb, "ON", cb, "=", "1", "JOIN", tc, "ON">> \o b, {ta, tb, tc}, {ca, cb}, {}, {})
+    [] pos = "group-by" -> Fr(<<"SELECT", "COUNT", "(", "*", ")", "FROM", ta, "GROUP", "BY">> \o x, {ta}, {}, {"COUNT"}, {})
+    [] pos = "group-by-second" -> Fr(<<"SELECT", ca, "FROM", ta, "GROUP", "BY", ca, ",">> \o x, {ta}, {ca}, {}, {})
+    [] pos = "having" -> Fr(<<"SELECT", ca, "FROM", ta, "GROUP", "BY", ca, "HAVING">> \o b, {ta}, {ca}, {}, {})
+    [] pos = "order-by" -> Fr(<<"SELECT", ca, "FROM", ta, "ORDER", "BY">> \o x, {ta}, {ca}, {}, {})
+    [] pos = "order-by-second" -> Fr(<<"SELECT", ca, "FROM", ta, "ORDER", "BY", ca, ",">> \o x \o <<"DESC">>, {ta}, {ca}, {}, {})
+    [] pos = "insert-value" -> Fr(<<"INSERT", "INTO", ta, "(", ca, ")", "VALUES", "(">> \o x \o <<")">>, {ta}, {ca}, {}, {})
+    [] pos = "insert-second-row" -> Fr(<<"INSERT", "INTO", ta, "(", ca, ")", "VALUES", "(", "1", ")", ",", "(">> \o x \o <<")">>, {ta}, {ca}, {}, {})
+    [] pos = "insert-returning" -> Fr(<<"INSERT", "INTO", ta, "(", ca, ")", "VALUES", "(", "1", ")", "RETURNING">> \o x, {ta}, {ca}, {}, {})
+    [] pos = "upsert-set" -> Fr(<<"INSERT", "INTO", ta, "(", ca, ")", "VALUES", "(", "1", ")", "ON", "CONFLICT", "(", ca, ")", "DO", "UPDATE", "SET", cb, "=">> \o x,
+                                {ta}, {ca, cb}, {}, {})
+    [] pos = "upsert-where" -> Fr(<<"INSERT", "INTO", ta, "(", ca, ")", "VALUES", "(", "1", ")", "ON", "CONFLICT", "(", ca, ")", "DO", "UPDATE", "SET", cb, "=", "1", "WHERE">> \o b,
+                                  {ta}, {ca, cb}, {}, {})
+    [] pos = "update-set" -> Fr(<<"UPDATE", ta, "SET", ca, "=">> \o x, {ta}, {ca}, {}, {})
+    [] pos = "update-second-set" -> Fr(<<"UPDATE", ta, "SET", ca, "=", "1", ",", cb, "=">> \o x, {ta}, {ca, cb}, {}, {})
+    [] pos = "update-where" -> Fr(<<"UPDATE", ta, "SET", ca, "=", "1", "WHERE">> \o b, {ta}, {ca}, {}, {})
+    [] pos = "update-returning" -> Fr(<<"UPDATE", ta, "SET", ca, "=", "1", "RETURNING">> \o x, {ta}, {ca}, {}, {})
+    [] pos = "delete-where" -> Fr(<<"DELETE", "FROM", ta, "WHERE">> \o b, {ta}, {}, {}, {})
+    [] pos = "delete-returning" -> Fr(<<"DELETE", "FROM", ta, "WHERE", ca, "=", "1", "RETURNING">> \o x, {ta}, {ca}, {}, {})
+    [] pos = "merge-on" -> Fr(mergeHead \o b \o <<"WHEN", "MATCHED", "THEN", "DELETE">>, {ta, tb}, {}, {}, {})
+    [] pos = "merge-when-condition" -> Fr(mergeHead \o mergeOn \o <<"WHEN", "MATCHED", "AND">> \o b \o <<"THEN", "DELETE">>, {ta, tb}, {ca}, {}, {})
+    [] pos = "merge-update-set" -> Fr(mergeHead \o mergeOn \o <<"WHEN", "MATCHED", "THEN", "UPDATE", "SET", cc, "=">> \o x, {ta, tb}, {ca, cc}, {}, {})
+    [] pos = "merge-insert-value" -> Fr(mergeHead \o mergeOn \o <<"WHEN", "NOT", "MATCHED", "THEN", "INSERT", "(", cc, ")", "VALUES", "(">> \o x \o <<")">>,
+                                        {ta, tb}, {ca, cc}, {}, {})
+
 \* ---- leaf frames --------------------------------------------------------------------------------------------
-Leaf(k, L) ==
+Leaf(k, L, sl) ==
   LET ta == Tab(L, "a")  tb == Tab(L, "b")  ca == Col(L, "a")  cb == Col(L, "b")  cc == Col(L, "c")  cd == Col(L, "d")
       xa == Ali(L, "a")  xb == Ali(L, "b")  f == Fn(L) IN
-  CASE k = "from" ->
+  CASE k \in {"slot-q", "slot-d"} -> SlotFrame(sl[1], L, Shape(sl[2], L))
+    [] k = "from" ->
          [toks |-> <<"SELECT", ca, "FROM", ta>>, T |-> {ta}, TQ |-> {Plain(ta)}, C |-> {ca}, CQ |-> {Plain(ca)}, F |-> {}, A |-> {}]
     [] k = "alias" ->
          [toks |-> <<"SELECT", xa, ".", ca, "FROM", ta, xa>>, T |-> {ta}, TQ |-> {Plain(ta)}, C |-> {ca}, CQ |-> {<<xa, ca>>}, F |-> {}, A |-> {xa}]
@@ -189,7 +283,7 @@ Nest(k, L, n) ==
                T |-> {ta}, TQ |-> {Plain(ta)}, C |-> {ca}, CQ |-> {Plain(ca)}, F |-> {}, A |-> {}], n)
 
 \* statements that may stand in a hole are queries
-QueryLeaf == LeafKinds \ {"insert-values", "update", "delete", "merge"}
+QueryLeaf == LeafKinds \ {"insert-values", "update", "delete", "merge", "slot-d"}
 QueryNest == {"in-subquery", "not-in-subquery", "exists", "scalar-subquery", "derived", "join-derived", "union", "having-subquery",
               "join-on-subquery", "case-subquery", "function-arg-subquery", "order-by-subquery", "between-subquery"}
 
@@ -197,15 +291,17 @@ QueryNest == {"in-subquery", "not-in-subquery", "exists", "scalar-subquery", "de
 Paths == UNION {{p \in [1..d -> LeafKinds \cup NestKinds] :
                     /\ p[d] \in LeafKinds /\ (d > 1 => p[d] \in QueryLeaf)
                     /\ \A i \in 1..(d - 1) : p[i] \in NestKinds /\ (i > 1 => p[i] \in QueryNest)} : d \in 1..Depth}
-RECURSIVE Build(_, _)
-Build(p, i) == IF i = Len(p) THEN Leaf(p[i], i) ELSE Nest(p[i], i, Build(p, i + 1))
+NoSlot == <<"-", "-">>
+SlotsOf(p) == CASE p[Len(p)] = "slot-q" -> QueryPos \X Shapes [] p[Len(p)] = "slot-d" -> DmlPos \X Shapes [] OTHER -> {NoSlot}
+RECURSIVE Build(_, _, _)
+Build(p, i, sl) == IF i = Len(p) THEN Leaf(p[i], i, sl) ELSE Nest(p[i], i, Build(p, i + 1, sl))
 
-VARIABLES path, done
-vars == <<path, done>>
-Stmt == Build(path, 1)
-Init == path \in Paths /\ done = FALSE
-Run == /\ ~done /\ done' = TRUE /\ UNCHANGED path
-       /\ (Emit => PrintT(ToJson([path |-> path, toks |-> Stmt.toks, T |-> Stmt.T, TQ |-> Stmt.TQ, C |-> Stmt.C, CQ |-> Stmt.CQ, F |-> Stmt.F, A |-> Stmt.A])))
+VARIABLES path, slot, done
+vars == <<path, slot, done>>
+Stmt == Build(path, 1, slot)
+Init == path \in Paths /\ slot \in SlotsOf(path) /\ done = FALSE
+Run == /\ ~done /\ done' = TRUE /\ UNCHANGED <<path, slot>>
+       /\ (Emit => PrintT(ToJson([path |-> path, slot |-> slot, toks |-> Stmt.toks, T |-> Stmt.T, TQ |-> Stmt.TQ, C |-> Stmt.C, CQ |-> Stmt.CQ, F |-> Stmt.F, A |-> Stmt.A])))
 Spec == Init /\ [][Run]_vars
 
 \* ---- laws -----------------------------------------------------------------------------------------------------
@@ -214,7 +310,8 @@ Toks == {Stmt.toks[i] : i \in DOMAIN Stmt.toks}
 Lits == UNION {{"'" \o Tab(L, "b") \o "'", "'" \o Tab(L, "b") \o " select " \o Col(L, "c") \o " from'"} : L \in 1..Depth}
 Keywords == {"SELECT", "FROM", "WHERE", "JOIN", "ON", "AS", "INSERT", "INTO", "VALUES", "UPDATE", "SET", "DELETE", "MERGE", "USING",
              "GROUP", "BY", "HAVING", "ORDER", "WITH", "UNION", "ALL", "IN", "EXISTS", "NOT", "CASE", "WHEN", "THEN", "ELSE", "END", "CAST",
-             "RETURNING", "CONFLICT", "DO", "BETWEEN", "AND"}
+             "RETURNING", "CONFLICT", "DO", "BETWEEN", "AND", "FILTER", "OVER", "PARTITION", "DISTINCT", "WITHIN", "LIKE", "IS", "NULL",
+             "MATCHED", "INT"}
 \* every expected column and function name, and the last component of every table name, is a token of the statement
 Written == /\ Stmt.C \subseteq Toks /\ Stmt.F \subseteq Toks
            /\ \A q \in Stmt.TQ : q[2] \in Toks /\ (q[1] # "" => q[1] \in Toks)
@@ -231,5 +328,5 @@ Disjoint == Stmt.T \cap Stmt.C = {} /\ Stmt.T \cap Stmt.F = {} /\ Stmt.C \cap St
 Consistent == /\ {q[2] : q \in Stmt.CQ} = Stmt.C
               /\ {IF q[1] = "" THEN q[2] ELSE q[1] \o "." \o q[2] : q \in Stmt.TQ} = Stmt.T
 NestedIncluded == Len(path) > 1 =>
-                     LET inner == Build(path, 2) IN inner.T \subseteq Stmt.T /\ inner.C \subseteq Stmt.C /\ inner.F \subseteq Stmt.F
+                     LET inner == Build(path, 2, slot) IN inner.T \subseteq Stmt.T /\ inner.C \subseteq Stmt.C /\ inner.F \subseteq Stmt.F
 =============================================================================
